@@ -704,6 +704,50 @@ fn history(family: &str, seed: u64, idx: usize, thorough: bool, out: &mut impl W
                 let d = c.drain(40);
                 c.s.trace.push(json!({"ev":"drain","quiescent":d.0,"rounds":d.1}));
             }
+            // one history in five: a burst — several large values (30 - 50 kB each, more than one packet budget together)
+            // written to different entities between two frames of one peer
+            if idx % 5 == 3 {
+                let w = c.any_peer();
+                let k = c.rng.range(2, 5);
+                let mut hs = vec![];
+                for _ in 0..k {
+                    let h = c.fresh();
+                    c.s.spawn(w, h, true, &[], None);
+                    c.live.push(h);
+                    hs.push(h);
+                }
+                let d = c.drain(40);
+                c.s.trace.push(json!({"ev":"drain","quiescent":d.0,"rounds":d.1}));
+                for (j, h) in hs.iter().enumerate() {
+                    c.s.trace.push(json!({"ev":"phase","writer":w,"h":h,"ty":"V","nan":false,"burst":true}));
+                    let mut v = CVal::new(Ty::V, 40 + j as i64);
+                    let len = 30_000 + c.rng.below(20_000);
+                    v.list = (0..len).map(|i| ((i + j) % 251) as u64).collect();
+                    c.s.write(w, *h, &v, &[]);
+                }
+                c.s.step(w);
+                // a burst of this size overruns the localhost socket buffer now and then; renet resends after a real-time
+                // delay, however fast the frames run: wait (bounded) until every peer holds what the writer holds
+                for _ in 0..800 {
+                    c.lockstep(1);
+                    let mut all = true;
+                    for h in &hs {
+                        let want = c.s.local_entity(w, *h).and_then(|e| c.s.comp_bytes(w, e, Ty::V));
+                        for p in 0..c.peers() {
+                            let got = c.s.local_entity(p, *h).and_then(|e| c.s.comp_bytes(p, e, Ty::V));
+                            if got != want {
+                                all = false;
+                            }
+                        }
+                    }
+                    if all || c.s.panicked.is_some() {
+                        break;
+                    }
+                    std::thread::sleep(std::time::Duration::from_millis(2));
+                }
+                let d = c.drain(80);
+                c.s.trace.push(json!({"ev":"drain","quiescent":d.0,"rounds":d.1}));
+            }
         }
         "parent" => {
             let ne = c.rng.range(2, 5);
